@@ -335,14 +335,15 @@ def record_run(mol, ljson, K, MK, unit_pm, seg_len=None, with_before=True):
     n = len(links)
     seg_len = seg_len or max(n, 1)
     starts = set(range(0, n, seg_len))
-    snaps, steps = {}, []
+    snaps, steps, snaps_at = {}, [], {}
     orig_match, orig_call = dl.match_link, LinkParameterEffector.__call__
 
     def spy(molecule, link):
         i = index[id(link)]
+        snaps_at[i] = abstract_state(molecule, K, MK, unit_pm)
         if i in starts:
-            snaps[i] = abstract_state(molecule, K, MK, unit_pm)
-        step = {'i': i, 'before': abstract_state(molecule, K, MK, unit_pm)[0]['nodes'] if with_before else [], 'matches': []}
+            snaps[i] = snaps_at[i]
+        step = {'i': i, 'before': snaps_at[i][0]['nodes'] if with_before else [], 'matches': []}
         steps.append(step)
         for match in orig_match(molecule, link):
             step['matches'].append(sorted([k, int(v)] for k, v in match.items()))
@@ -362,8 +363,27 @@ def record_run(mol, ljson, K, MK, unit_pm, seg_len=None, with_before=True):
         dl.match_link = orig_match
         LinkParameterEffector.__call__ = orig_call
     snaps[n] = abstract_state(mol, K, MK, unit_pm)
-    if [s['i'] for s in steps] != list(range(n)):
-        raise tlc.MachineryError('match_link was not called once per link in order: %r' % [s['i'] for s in steps])
+    called = [s['i'] for s in steps]
+    if called != sorted(set(called)):
+        raise tlc.MachineryError('match_link was not called at most once per link in order: %r' % called)
+    if called != list(range(n)):
+        # a link for which the implementation never looked for placements found none: that is an observation, not a machinery
+        # problem. Nothing changes the molecule between two looked-at links, so the state before a skipped link is the state before
+        # the next one that was looked at (the final state when there is none).
+        final_nodes = snaps[n][0]['nodes'] if with_before else []
+        by_i = {s['i']: s for s in steps}
+        filled, nxt = [], final_nodes
+        for i in reversed(range(n)):
+            if i in by_i:
+                nxt = by_i[i]['before']
+                filled.append(by_i[i])
+            else:
+                filled.append({'i': i, 'before': nxt, 'matches': []})
+        steps = filled[::-1]
+        for a in sorted(starts):
+            if a not in snaps:      # segment start was skipped: state there = state at the next looked-at link
+                later = [i for i in called if i > a]
+                snaps[a] = snaps_at[later[0]] if later else snaps[n]
     events = []
     bounds = sorted(starts) + [n]
     for a, b in zip(bounds, bounds[1:]):
